@@ -26,6 +26,7 @@ func checkC09(w *World, r *Report) {
 	checkNoEmptyCapture(w, r, "C09.4")
 	checkCursorReset(w, r, "C09.5")
 	checkSkipStackReset(w, r, "C09.6")
+	checkC09HostHasNoSlash(w, r)
 }
 
 // findCalls returns the call expressions to fn name inside the function body.
@@ -366,4 +367,75 @@ func checkC09Fallback(w *World, r *Report) {
 		}
 	}
 	ru.Check("path-only fallback", w.Pos(fallback.Pos()), "*c.params = (*c.params)[:0] and c.tsr = false dominate the fallback call, after the hostname attempt", found["params"] && found["tsr"], fmt.Sprintf("paramsTruncated=%v tsrCleared=%v", found["params"], found["tsr"]))
+}
+
+// checkC09HostHasNoSlash: the tree stores a hostname route as host nodes followed by a '/' child that starts the path.
+// The hostname matcher picks children by the next host byte; a '/' inside the Host would walk through that child into
+// the path nodes and "match" a Host that merely contains the pattern plus a piece of path (Host "a.b/x", path "/y"
+// served by a.b/x/y; Host "/x" by the path-only route /x/y). No hostname contains '/', so such a Host must go
+// straight to the path-only routes.
+func checkC09HostHasNoSlash(w *World, r *Report) {
+	ru := r.Rule("C09.7", "the Host never crosses the host/path boundary: the hostname matcher is entered only for a host known to contain no '/' (or its child searches refuse that byte)", 1)
+	af := w.astFuncOf(modulePath, "roots.lookup")
+	calls := findCalls(af.decl.Body, "lookupByDomain")
+	if len(calls) != 1 {
+		r.Unrecognised("C09.7: %d calls of lookupByDomain in roots.lookup", len(calls))
+		return
+	}
+	c := calls[0]
+	hostArg := exprStr(c.Args[2])
+	slash := func(s string) bool { return s == "slashDelim" || s == "'/'" || s == "\"/\"" }
+	ok := false
+	if b, _ := af.blockOf(c); b != nil {
+		for _, f := range af.factsAt(b) {
+			e := f.e
+			if p, isP := e.(*ast.ParenExpr); isP {
+				e = p.X
+			}
+			// strings.IndexByte(host, '/') < 0   /  >= 0 false  /  == -1
+			if be, isB := e.(*ast.BinaryExpr); isB {
+				if call, isC := be.X.(*ast.CallExpr); isC && len(call.Args) == 2 && exprStr(call.Args[0]) == hostArg && slash(exprStr(call.Args[1])) && strings.HasPrefix(exprStr(call.Fun), "strings.Index") {
+					y := exprStr(be.Y)
+					if (be.Op == token.LSS && y == "0" && f.val) || (be.Op == token.GEQ && y == "0" && !f.val) || (be.Op == token.EQL && y == "-1" && f.val) || (be.Op == token.NEQ && y == "-1" && !f.val) {
+						ok = true
+					}
+				}
+			}
+			// !strings.Contains(host, "/")
+			neg := false
+			if u, isU := e.(*ast.UnaryExpr); isU && u.Op == token.NOT {
+				e, neg = u.X, true
+			}
+			if call, isC := e.(*ast.CallExpr); isC && len(call.Args) == 2 && exprStr(call.Args[0]) == hostArg && slash(exprStr(call.Args[1])) && strings.HasPrefix(exprStr(call.Fun), "strings.Contains") {
+				if f.val == neg {
+					ok = true
+				}
+			}
+		}
+	}
+	why := "no test that " + hostArg + " contains no '/' before the hostname matcher is entered"
+	if !ok {
+		// alternative: both child searches of the hostname matcher refuse the byte
+		ad := w.astFuncOf(modulePath, "lookupByDomain")
+		n, guarded := 0, 0
+		ast.Inspect(ad.decl.Body, func(nd ast.Node) bool {
+			be, isB := nd.(*ast.BinaryExpr)
+			if !isB || be.Op != token.EQL || !strings.Contains(exprStr(be.X), ".childKeys[") || !strings.HasPrefix(exprStr(be.Y), "host[") {
+				return true
+			}
+			n++
+			if b, _ := ad.blockOf(be); b != nil {
+				for _, f := range ad.factsAt(b) {
+					if x, y, isC := isCmp(f.e, token.NEQ); isC && f.val && x == exprStr(be.Y) && slash(y) {
+						guarded++
+					}
+				}
+			}
+			return true
+		})
+		if n > 0 && n == guarded {
+			ok, why = true, ""
+		}
+	}
+	ru.Check("hostname attempt in roots.lookup", w.Pos(c.Pos()), "entered only for a host without '/'", ok, orDefault(map[bool]string{true: "tested"}[ok], why+": a Host such as \"a.b/x\" walks through the '/' child into the path nodes"))
 }
